@@ -158,6 +158,12 @@ SEARCH_KEYS = [("SEEN", "has", "\\Seen"), ("UNSEEN", "not", "\\Seen"), ("DELETED
                ("UNDRAFT", "not", "\\Draft"), ("RECENT", "has", "\\Recent"), ("OLD", "not", "\\Recent"), ("NEW", "new", "")]
 
 
+# keys the acting session is asked right after a step
+PROBE_KEYS = [("SEEN", "has", "\\Seen"), ("FLAGGED", "has", "\\Flagged"), ("DELETED", "has", "\\Deleted"), ("KEYWORD Junk", "has", "Junk"),
+              ("UNANSWERED", "not", "\\Answered"), ("KEYWORD kw", "has", "kw")]
+DEFAULT_PROBES = {"a_refresh": None, "a_key": 0, "c": True, "c_refresh": False, "d": True}
+
+
 def set_text(items):
     out = []
     for (a, b) in items:
@@ -264,8 +270,13 @@ def gen_history(rng, stream, nops):
             raw = item + (".SILENT" if silent else "")
             if rng.random() < 0.2:
                 raw = raw.lower()
-            h.append({"k": "store", "uid": uidmode, "ro": ro, "silent": silent, "mb": sel, "set": gen_set(rng, cnt[sel], uidmode),
-                      "item": item, "raw": raw, "new": new, "paren": not (len(new) == 1 and rng.random() < 0.3)})
+            if rng.random() < 0.12:
+                # another session (C: INBOX selected read-write all the time) stores
+                h.append({"k": "store", "conn": "C", "uid": uidmode, "ro": False, "silent": silent, "mb": MB["INBOX"], "set": gen_set(rng, cnt[MB["INBOX"]], uidmode),
+                          "item": item, "raw": raw, "new": new, "paren": True})
+            else:
+                h.append({"k": "store", "uid": uidmode, "ro": ro, "silent": silent, "mb": sel, "set": gen_set(rng, cnt[sel], uidmode),
+                          "item": item, "raw": raw, "new": new, "paren": not (len(new) == 1 and rng.random() < 0.3)})
         elif r < 0.77:
             others = [m for m in sorted(alive) if m != sel]
             dest = sel if rng.random() < (0.7 if stream == "samecopy" else 0.15) else rng.choice(others)
@@ -274,6 +285,9 @@ def gen_history(rng, stream, nops):
             h.append({"k": "copy", "uid": uidmode, "mb": sel, "set": s, "dest": dest})
             cnt[dest] += 1
             used.add(dest)
+        elif r < 0.9 and rng.random() < 0.15:
+            h.append({"k": "deliver"})          # LMTP delivery to INBOX
+            cnt[MB["INBOX"]] += 1
         elif r < 0.9:
             mb = rng.choice(sorted(alive)) if rng.random() < 0.4 else sel
             afl = gen_flags(rng, pool)
@@ -289,6 +303,11 @@ def gen_history(rng, stream, nops):
             h.append({"k": "expunge", "ro": ro, "mb": sel, "how": how})
             if how == "CLOSE":
                 h.append({"k": "select", "mb": sel, "ro": ro})
+    # what is asked after every step, and by whom (fixed here: driver_ops must be deterministic)
+    for o in h:
+        if o["k"] != "select":
+            o["probes"] = {"a_refresh": rng.choice([None, None, None, "NOOP", "CHECK"]), "a_key": rng.randrange(len(PROBE_KEYS)),
+                           "c": rng.random() < 0.5, "c_refresh": rng.random() < 0.15, "d": rng.random() < 0.5}
     keys = rng.sample(SEARCH_KEYS, 5)
     kws = [rng.choice(store_pool + ["Junk", "Seen", "\\Seenish", "\\seen"]) for _ in range(3)]
     keys += [("KEYWORD " + kws[0], "has", kws[0]), ("UNKEYWORD " + kws[1], "not", kws[1]), ("keyword " + kws[2], "has", kws[2])]
@@ -300,30 +319,41 @@ def body_of(i):
 
 
 def driver_ops(sc):
-    """-> (ops, plan) where plan[j] says how to read obs[j]"""
+    """-> (ops, plan) where plan[j] says how to read obs[j].  Sessions: A acts; C keeps INBOX
+    selected (read-write) from the start and sometimes stores; D never selects; B is the
+    later session after the restart.  Probe commands carry tags p<n>."""
     ops, plan = [], []
     t = [0]
 
-    def tag():
+    def tag(prefix="a"):
         t[0] += 1
-        return "a%d" % t[0]
+        return "%s%d" % (prefix, t[0])
 
-    def send(conn, line, what):
-        tg = tag()
+    def send(conn, line, what, prefix="a"):
+        tg = tag(prefix)
         ops.append({"op": "send", "conn": conn, "data": "%s %s\r\n" % (tg, line), "until": "tag:" + tg})
         plan.append(what)
 
-    ops.append({"op": "open", "conn": "A"})
-    plan.append(None)
-    send("A", "LOGIN u@example.com pw", None)
-    sel = None
+    def raw(op):
+        ops.append(op)
+        plan.append(None)
+
+    for c in "ACD":
+        raw({"op": "open", "conn": c})
+        send(c, "LOGIN u@example.com pw", None, "i")
+    send("C", "SELECT INBOX", None, "i")
+    if any(o["k"] == "deliver" for o in sc["h"]):
+        raw({"op": "lmtp_open", "conn": "L"})
+        raw({"op": "send", "conn": "L", "data": "LHLO x\r\n", "until": "lmtp:1"})
+    sel, ro = None, False
     nmsg = 0
     names = dict(MBN)            # model id -> current name
     for si, o in enumerate(sc["h"]):
         k = o["k"]
+        conn = o.get("conn", "A")
         if k == "select":
             send("A", "%s %s" % ("EXAMINE" if o["ro"] else "SELECT", names[o["mb"]]), None)
-            sel = o["mb"]
+            sel, ro = o["mb"], o["ro"]
             continue
         if k == "dropspam":
             sp = [i for i, n in names.items() if n == "Spam"]
@@ -344,36 +374,55 @@ def driver_ops(sc):
             fl = ("(%s) " % " ".join(o["fl"])) if (o["paren"] or o["fl"]) else ""
             if o.get("litplus"):
                 # non-synchronizing literal: line and data in one write, the reply is tagged either way
-                ops.append({"op": "send", "conn": "A", "data": "%s APPEND %s %s{%d+}\r\n%s\r\n" % (tg, names[o["mb"]], C.latin(fl.encode("latin-1")), len(body), body), "until": "tag:" + tg})
-                plan.append(None)
+                raw({"op": "send", "conn": "A", "data": "%s APPEND %s %s{%d+}\r\n%s\r\n" % (tg, names[o["mb"]], C.latin(fl.encode("latin-1")), len(body), body), "until": "tag:" + tg})
             else:
-                ops.append({"op": "send", "conn": "A", "data": "%s APPEND %s %s{%d}\r\n" % (tg, names[o["mb"]], fl, len(body)), "until": "cont:" + tg})
-                plan.append(None)
-                ops.append({"op": "send", "conn": "A", "data": body + "\r\n", "until": "tag:" + tg})
-                plan.append(None)
+                raw({"op": "send", "conn": "A", "data": "%s APPEND %s %s{%d}\r\n" % (tg, names[o["mb"]], fl, len(body)), "until": "cont:" + tg})
+                raw({"op": "send", "conn": "A", "data": body + "\r\n", "until": "tag:" + tg})
+        elif k == "deliver":
+            nmsg += 1
+            raw({"op": "send", "conn": "L", "data": "MAIL FROM:<a@example.com>\r\n", "until": "lmtp:1"})
+            raw({"op": "send", "conn": "L", "data": "RCPT TO:<u@example.com>\r\n", "until": "lmtp:1"})
+            raw({"op": "send", "conn": "L", "data": "DATA\r\n", "until": "lmtp:1"})
+            raw({"op": "send", "conn": "L", "data": "From: a@example.com\r\nTo: u@example.com\r\nSubject: d%d\r\n\r\ndelivered %d\r\n.\r\n" % (nmsg, nmsg), "until": "lmtp:1"})
         elif k == "store":
             fl = " ".join(o["new"])
-            send("A", "%sSTORE %s %s %s" % ("UID " if o["uid"] else "", set_text(o["set"]), o["raw"], "(%s)" % fl if o["paren"] else fl), None)
+            send(conn, "%sSTORE %s %s %s" % ("UID " if o["uid"] else "", set_text(o["set"]), o["raw"], "(%s)" % fl if o["paren"] else fl), None)
         elif k == "copy":
             send("A", "%sCOPY %s %s" % ("UID " if o.get("uid", True) else "", set_text(o["set"]), names[o["dest"]]), None)
         elif k == "expunge":
             send("A", o["how"], None)
             if o["how"] == "CLOSE":
                 sel = None
+        # ---- what every observer reports now
+        pr = o.get("probes", DEFAULT_PROBES)
         if sel is not None:
-            send("A", "FETCH 1:* (UID FLAGS)", ("view", si))
+            send("A", "FETCH 1:* (UID FLAGS)", ("view", si, sel), "p")
+            # STATUS on the mailbox this session has selected, before (mostly) or after a refresh
+            if pr["a_refresh"]:
+                send("A", pr["a_refresh"], None, "p")
+            send("A", "STATUS %s (MESSAGES UNSEEN RECENT)" % names[sel], ("status", si, sel, ro, sel), "p")
+            send("A", "SEARCH UNSEEN", ("psearch", si, sel, ro, ("not", "\\Seen")), "p")
+            txt, kd, at = PROBE_KEYS[pr["a_key"]]
+            send("A", "SEARCH " + txt, ("psearch", si, sel, ro, (kd, at)), "p")
+        if pr["c"]:
+            if pr["c_refresh"]:
+                send("C", "NOOP", None, "p")
+            send("C", "STATUS INBOX (MESSAGES UNSEEN RECENT)", ("status", si, MB["INBOX"], False, MB["INBOX"]), "p")
+            send("C", "SEARCH UNSEEN", ("psearch", si, MB["INBOX"], False, ("not", "\\Seen")), "p")
+            send("C", "FETCH 1:* (UID FLAGS)", ("view", si, MB["INBOX"]), "p")
+        if pr["d"]:
+            mb = sel if sel is not None else MB["INBOX"]
+            send("D", "STATUS %s (MESSAGES UNSEEN)" % names[mb], ("status", si, 0, False, mb), "p")
     # a later session, after the store managers were closed and reopened
-    ops.append({"op": "restart"})
-    plan.append(None)
-    ops.append({"op": "open", "conn": "B"})
-    plan.append(None)
-    send("B", "LOGIN u@example.com pw", None)
+    raw({"op": "restart"})
+    raw({"op": "open", "conn": "B"})
+    send("B", "LOGIN u@example.com pw", None, "i")
     for mi, mb in enumerate(sc["mailboxes"]):
-        send("B", "%s %s" % ("EXAMINE" if mi % 2 else "SELECT", names[mb]), ("first", mb))
-        send("B", "FETCH 1:* (UID FLAGS)", ("fview", mb))
+        send("B", "%s %s" % ("EXAMINE" if mi % 2 else "SELECT", names[mb]), ("first", mb), "b")
+        send("B", "FETCH 1:* (UID FLAGS)", ("fview", mb), "b")
         for ki, (txt, _, _) in enumerate(sc["keys"]):
-            send("B", "SEARCH " + txt, ("search", mb, ki))
-        send("B", "STATUS %s (MESSAGES UNSEEN)" % names[mb], ("status", mb))
+            send("B", "SEARCH " + txt, ("search", mb, ki), "b")
+        send("B", "STATUS %s (MESSAGES UNSEEN)" % names[mb], ("status_final", mb), "b")
     return ops, plan
 
 
@@ -387,12 +436,12 @@ def parse_view(recv):
 
 
 def observe(sc, res):
-    """-> dict(step_views {si: view}, final {mb: {...}}) or None when the driver failed"""
+    """-> dict(probes {si: [probe, ...]}, final {mb: {...}}) or None when the driver failed"""
     ops, plan = driver_ops(sc)
     obs = res.get("obs", [])
     if res.get("crashed") or len(obs) != len(plan):
         return None
-    out = {"views": {}, "final": {mb: {"search": {}} for mb in sc["mailboxes"]}}
+    out = {"probes": {}, "final": {mb: {"search": {}} for mb in sc["mailboxes"]}}
     for o, p in zip(obs, plan):
         if p is None:
             continue
@@ -402,7 +451,15 @@ def observe(sc, res):
         if p[0] == "view":
             v = parse_view(recv)
             if v is not None:
-                out["views"][p[1]] = v
+                out["probes"].setdefault(p[1], []).append(["view", p[2], v])
+        elif p[0] == "status":
+            m = re.search(r"MESSAGES (\d+) UNSEEN (\d+)", recv)
+            if m:
+                out["probes"].setdefault(p[1], []).append(["status", p[2], p[3], p[4], int(m.group(1)), int(m.group(2))])
+        elif p[0] == "psearch":
+            m = re.search(r"^\* SEARCH([ \d]*)\r?$", recv, re.M)
+            if m:
+                out["probes"].setdefault(p[1], []).append(["search", p[2], p[3], list(p[4]), [int(x) for x in m.group(1).split()]])
         elif p[0] == "fview":
             v = parse_view(recv)
             if v is None:
@@ -416,7 +473,7 @@ def observe(sc, res):
             if not m:
                 return None
             out["final"][p[1]]["search"][p[2]] = [int(x) for x in m.group(1).split()]
-        elif p[0] == "status":
+        elif p[0] == "status_final":
             m = re.search(r"UNSEEN (\d+)", recv)
             if not m:
                 return None
@@ -447,6 +504,8 @@ def coq_op(o):
         return "(OAppend %s %s)" % (cz(o["mb"]), coq_strs(o["fl"]))
     if k == "expunge":
         return "(OExpunge %s %s)" % (C.coq_bool(o["ro"]), cz(o["mb"]))
+    if k == "deliver":
+        return "(OAppend (1) [])"
     if k == "dropspam":
         return "(ODropSpam %s)" % C.coq_bool(o["delete"])
     if k == "createspam":
@@ -462,17 +521,23 @@ def coq_key(kind, atom):
     return "KNew"
 
 
+def coq_probe(pr):
+    if pr[0] == "view":
+        return "(PView %s %s)" % (cz(pr[1]), coq_view(pr[2]))
+    if pr[0] == "status":
+        _, sel, ro, mb, nmsg, unseen = pr
+        return "(PUnseen %s %s %s %s); (PCount %s %s %s %s)" % (cz(sel), C.coq_bool(ro), cz(mb), cz(unseen), cz(sel), C.coq_bool(ro), cz(mb), cz(nmsg))
+    _, mb, ro, (kd, at), r = pr
+    return "(PSearch %s %s %s %s)" % (cz(mb), C.coq_bool(ro), coq_key(kd, at), C.coq_list([cz(x) for x in r]))
+
+
 def coq_case(sc, ob):
     steps = []
-    sel = 0
     for si, o in enumerate(sc["h"]):
         if o["k"] == "select":
-            sel = o["mb"]
             continue
-        if o["k"] == "expunge" and o["how"] == "CLOSE":
-            sel = 0
-        v = ob["views"].get(si)
-        steps.append("(%s, %s, %s)" % (coq_op(o), cz(sel), C.coq_opt(None if (v is None or sel == 0) else coq_view(v))))
+        prs = ob["probes"].get(si) or ob["probes"].get(str(si)) or []
+        steps.append("(%s, %s)" % (coq_op(o), C.coq_list([coq_probe(p) for p in prs])))
     fin = []
     for mb in sc["mailboxes"]:
         f = ob["final"][mb]
@@ -480,6 +545,24 @@ def coq_case(sc, ob):
                                                C.coq_list(["(%s, %s)" % (coq_key(kd, at), C.coq_list([cz(x) for x in f["search"][ki]]))
                                                            for ki, (_, kd, at) in enumerate(sc["keys"])])))
     return "(%s,\n  %s)" % (C.coq_list(steps), C.coq_list(fin))
+
+
+def observers_disagree(sc, ob):
+    """first step after which two observers of the same table contradict each other (no model needed)"""
+    acting = [i for i, o in enumerate(sc["h"]) if o["k"] != "select"]
+    for si in sorted(ob["probes"], key=int):
+        prs = ob["probes"][si]
+        for pr in prs:
+            if pr[0] != "status":
+                continue
+            _, sel, ro, mb, nmsg, unseen = pr
+            for q in prs:
+                if q[0] == "search" and q[1] == mb and list(q[3]) == ["not", "\\Seen"] and len(q[4]) != unseen:
+                    who = "the session that has it selected" if sel == mb else ("a session without selection" if sel == 0 else "another session")
+                    return "after step %d: STATUS (UNSEEN) of %s says %d, SEARCH UNSEEN lists %d message(s) %r" % (acting.index(int(si)) + 1 if int(si) in acting else int(si), who, unseen, len(q[4]), q[4])
+                if q[0] == "view" and q[1] == mb and len(q[2]) != nmsg:
+                    return "after step %s: STATUS (MESSAGES) says %d, FETCH 1:* lists %d" % (si, nmsg, len(q[2]))
+    return None
 
 
 def load_corpus():
@@ -501,7 +584,14 @@ def load_corpus():
 def describe(sc):
     """the commands of session A, for messages"""
     ops, _ = driver_ops(sc)
-    return [o["data"].split("\r\n")[0].strip() for o in ops if o.get("conn") == "A" and "data" in o and "FETCH 1:*" not in o["data"] and not o["data"].startswith("Subject:")]
+    out = []
+    for o in ops:
+        d = o.get("data", "")
+        if o.get("conn") in ("A", "C") and re.match(r"a\d+ ", d):
+            out.append(("" if o["conn"] == "A" else "[session C] ") + d.split("\r\n")[0].strip())
+        elif o.get("conn") == "L" and d.startswith("DATA"):
+            out.append("[LMTP delivery to INBOX]")
+    return out
 
 
 def suite_sessions(chk, body_parts, post):
@@ -553,12 +643,13 @@ def suite_sessions(chk, body_parts, post):
                     distinct.add((o["uid"], o["silent"], o["item"], tuple(o["new"]), set_text(o["set"])))
         chk.cov["distinct_nontrivial"] += len(distinct)
         chk.cov["rule"] += ("; sessions: histories of APPEND-with-flags / STORE / UID STORE (+-.SILENT, any case) / UID COPY / EXPUNGE / CLOSE / re-SELECT / EXAMINE over 5 mailboxes, "
-                            "FETCH 1:* (UID FLAGS) after every step in the acting session, then restart of the store managers and a second session reading every mailbox "
+                            "after every step: FETCH 1:* (UID FLAGS), STATUS <the selected mailbox> (MESSAGES UNSEEN RECENT) - mostly before, sometimes after a NOOP/CHECK -, SEARCH UNSEEN and one more flag key in the acting session (SELECT or EXAMINE), the same from a second session that keeps INBOX selected and sometimes stores itself, STATUS from a third session without selection; LMTP deliveries in between; then restart of the store managers and a later session reading every mailbox "
                             "(SELECT [UNSEEN], FETCH FLAGS, 8 SEARCH flag keys, STATUS UNSEEN); compared per uid as sets with the model run and the reference semantics, "
                             "both evaluated by vm_compute; non-trivial = distinct (mode, item, named flags, set) of STORE steps with a non-empty flag list")
         chk.cov["classes_seen"] = {}
         sc0, ob0 = good[min(ncorpus, len(good) - 1)]
         chk.sample({"suite": "sessions", "stream": sc0["stream"], "commands": describe(sc0)[:14], "final_inbox": ob0["final"][1].get("view")})
+        chk.cov["session_probes"] = sum(len(v) for _, ob in good for v in ob["probes"].values())
         nd = 0
         for (sc, ob), code in zip(good, codes):
             vm, vs, qm, qs, cl = code & 1, code & 2, code & 4, code & 8, code >> 5
@@ -581,7 +672,9 @@ def suite_sessions(chk, body_parts, post):
             elif not vm:
                 chk.broken_obligation("correspondence sessions no longer checks: the implementation's flags agree with the reference semantics but not with the model; commands: %s" % " | ".join(describe(sc)), payload)
             elif not qs:
-                chk.violation("SEARCH by flag / UNSEEN of a later session differ from set membership of the stored flags; keys %s; commands: %s" % ([k[0] for k in sc["keys"]], " | ".join(describe(sc))), payload)
+                dis = observers_disagree(sc, ob)
+                chk.violation("%sa report about the flags (STATUS UNSEEN/MESSAGES on the selected or another mailbox, SEARCH by flag, [UNSEEN n]) of the storing session, a second session or the later session differs from the flag table that FETCH FLAGS shows; commands: %s"
+                              % (("observers contradict each other " + dis + ": ") if dis else "", " | ".join(describe(sc))), payload)
             else:
                 chk.broken_obligation("correspondence sessions no longer checks: query answers agree with set membership but not with the model", payload)
             if cname:
